@@ -9,6 +9,10 @@
 (*   ReleasedAliases   a send to ANY alias it ever created ends "unknown"    *)
 (*   AliasesIntact     right before the termination exactly the aliases not  *)
 (*                     deleted still delivered                               *)
+(*   OwnerKeeps        a rival that is refused the name / the events and     *)
+(*                     then terminates takes nothing with it: right before   *)
+(*                     the owner's termination its name still resolves and   *)
+(*                     its events are still taken                            *)
 (*   ReleasedName      a send to its name ends "unknown"                     *)
 (*   ReleasedEvents    its events can be registered again by someone else    *)
 (*   NoRelationOfDead  no relation mentions it, as requester or as target    *)
@@ -30,6 +34,8 @@ Held(ops, res, k, made, held) ==
 Judge(e) ==
   LET held == Held(e.ops, e.res, 1, 0, {}) IN
   IF \E i \in 1..Len(e.mid) : (e.mid[i] = "ok") # (i \in held) THEN "AliasesIntact"
+  ELSE IF \E i \in 1..Len(e.rival) : e.rival[i] # "taken" THEN "OwnerKeeps"
+  ELSE IF e.midname \notin {"", "ok"} \/ \E i \in 1..Len(e.midev) : e.midev[i] # "taken" THEN "OwnerKeeps"
   ELSE IF \E i \in 1..Len(e.aliases) : e.aliases[i] # "unknown" THEN "ReleasedAliases"
   ELSE IF e.name \notin {"", "unknown"} THEN "ReleasedName"
   ELSE IF \E i \in 1..Len(e.events) : e.events[i] # "ok" THEN "ReleasedEvents"
